@@ -68,7 +68,10 @@ struct Cfg {
     unreachable: Option<String>,
     take_stmts: Option<usize>,
     self_fields: Vec<String>,
-    loop_fuel: u64,
+    /// fuel of `iterFuel`: a number, or a Lean expression over the variables in scope where the loop starts
+    loop_fuel: String,
+    /// `x.m(a, b);` statements that mutate a local list: method -> template of the new value (`@k ` prefix: argument k is the list, not the receiver)
+    stmt_methods: BTreeMap<String, String>,
     tail: Option<String>,
 }
 
@@ -130,7 +133,8 @@ struct Tr<'a> {
     /// innermost loop last: (state variables, whether the loop body contains `return`)
     loops: std::cell::RefCell<Vec<(Vec<String>, bool)>>,
     /// nesting depth of `for` folds whose `continue` ends the current iteration
-    folds: std::cell::RefCell<Vec<Vec<String>>>,
+    /// (the flag says that the fold is a `foldlBrk`, whose body may also `break`)
+    folds: std::cell::RefCell<Vec<(Vec<String>, bool)>>,
 }
 
 fn has_return_expr(e: &Expr) -> bool {
@@ -171,6 +175,33 @@ fn has_return_stmts(stmts: &[Stmt]) -> bool {
         visit::Visit::visit_stmt(&mut v, s);
     }
     v.0
+}
+
+thread_local! {
+    /// mutating statement methods of the target being translated: method name -> index of the mutated expression (0 = receiver, k = argument k)
+    static MUTATORS: std::cell::RefCell<BTreeMap<String, usize>> = std::cell::RefCell::new(BTreeMap::new());
+}
+
+/// splits the optional `@k ` prefix off a statement-method template
+fn stmt_template(t: &str) -> (usize, &str) {
+    if let Some(rest) = t.strip_prefix('@') {
+        if let Some((k, body)) = rest.split_once(' ') {
+            if let Ok(k) = k.parse::<usize>() {
+                return (k, body);
+            }
+        }
+    }
+    (0, t)
+}
+
+/// the plain variable behind `x`, `&x`, `&mut x`
+fn plain_var(e: &Expr) -> Option<String> {
+    match e {
+        Expr::Reference(r) => plain_var(&r.expr),
+        Expr::Paren(p) => plain_var(&p.expr),
+        Expr::Path(p) if p.path.segments.len() == 1 => Some(p.path.segments[0].ident.to_string()),
+        _ => None,
+    }
 }
 
 /// variables assigned (not declared) in a statement list
@@ -238,6 +269,14 @@ fn assigned_vars(stmts: &[Stmt], out: &mut Vec<String>) {
             if m.method == "push" {
                 if let Expr::Path(p) = &*m.receiver {
                     let n = p.path.segments.last().unwrap().ident.to_string();
+                    if !self.declared.contains(&n) && !self.out.contains(&n) {
+                        self.out.push(n);
+                    }
+                }
+            }
+            if let Some(k) = MUTATORS.with(|mu| mu.borrow().get(&m.method.to_string()).copied()) {
+                let target = if k == 0 { Some(&*m.receiver) } else { m.args.iter().nth(k - 1) };
+                if let Some(n) = target.and_then(plain_var) {
                     if !self.declared.contains(&n) && !self.out.contains(&n) {
                         self.out.push(n);
                     }
@@ -527,7 +566,10 @@ impl<'a> Tr<'a> {
                         let parts = parts?;
                         return Ok(format!("(V{}.mk {})", parts.len(), parts.join(" ")));
                     }
-                    return Err(format!("unsupported from_components argument in `{}`", key));
+                    // any other argument (a vector computed elsewhere): needs a "fns" template for this call
+                    if self.cfg.fns.get(&fname).or_else(|| self.cfg.fns.get(&last)).is_none() {
+                        return Err(format!("unsupported from_components argument in `{}`", key));
+                    }
                 }
                 let mut args = vec![];
                 for a in &c.args {
@@ -590,6 +632,13 @@ impl<'a> Tr<'a> {
                 }
                 let body = self.expr(&c.body)?;
                 Ok(format!("(fun {} =>\n{}{})", names.join(" "), binds, body))
+            }
+            Expr::Range(r) => {
+                // `a..b` as a value: `std::ops::Range { start, end }`
+                match (&r.start, &r.end, &r.limits) {
+                    (Some(lo), Some(hi), RangeLimits::HalfOpen(_)) => Ok(format!("(RangeT.mk {} {})", self.expr(lo)?, self.expr(hi)?)),
+                    _ => Err(format!("unsupported range expression `{}`", key)),
+                }
             }
             Expr::Return(_) => Err("`return` in expression position (internal: use expr_k)".into()),
             _ => Err(format!("unsupported expression `{}`", key)),
@@ -892,6 +941,18 @@ impl<'a> Tr<'a> {
                         if is_last && semi.is_none() {
                             self.expr_k(e, k)
                         } else if let Expr::MethodCall(m) = e {
+                            // configured mutating methods: `x.m(a, b);` becomes `let x := template`
+                            if let Some(t) = self.cfg.stmt_methods.get(&m.method.to_string()) {
+                                let (kidx, template) = stmt_template(t);
+                                let target = if kidx == 0 { Some(&*m.receiver) } else { m.args.iter().nth(kidx - 1) };
+                                let n = target.and_then(plain_var).ok_or_else(|| format!("statement `{}`: the mutated expression is not a plain variable", tok(e)))?;
+                                let mut args = vec![self.expr(&m.receiver)?];
+                                for a in &m.args {
+                                    args.push(self.expr(a)?);
+                                }
+                                let v = fill(template, &args)?;
+                                return Ok(format!("let {} := {}\n{}", ident(&n), v, self.stmts(rest, k)?));
+                            }
                             // x.push(v) on a local list
                             if m.method == "retain" {
                                 let n = self.assign_name(&m.receiver)?;
@@ -949,14 +1010,16 @@ impl<'a> Tr<'a> {
     }
 
     fn loop_jump(&self, is_break: bool) -> R<String> {
-        if let Some(vars) = self.folds.borrow().last() {
+        if let Some((vars, with_break)) = self.folds.borrow().last() {
             // innermost enclosing construct is a `for` fold
-            if !vars.is_empty() || true {
-                if is_break {
-                    return Err("`break` inside a `for` that is translated as a fold is unsupported".into());
-                }
-                return Ok(self.tuple_of(vars));
+            if *with_break {
+                // `foldlBrk`: `inl` goes on with the next element, `inr` leaves the loop
+                return Ok(format!("(Sum.{} {})", if is_break { "inr" } else { "inl" }, self.tuple_of(vars)));
             }
+            if is_break {
+                return Err("`break` inside a `for` that is translated as a fold is unsupported".into());
+            }
+            return Ok(self.tuple_of(vars));
         }
         let loops = self.loops.borrow();
         let (vars, has_ret) = loops.last().ok_or("`break`/`continue` outside a loop")?;
@@ -1030,7 +1093,7 @@ impl<'a> Tr<'a> {
         self.loops.borrow_mut().pop();
         *self.folds.borrow_mut() = saved_folds;
         let step = result?;
-        let fuel = self.cfg.loop_fuel;
+        let fuel = self.cfg.loop_fuel.clone();
         let upd = format!("upd_{}", n);
         let mut out = String::new();
         if has_ret {
@@ -1078,9 +1141,22 @@ impl<'a> Tr<'a> {
                 }
             }
         }
+        // a `break` of this loop itself (not of a loop nested in the body) and no `return`: a fold that can stop early
+        struct JB { brk: bool, ret: bool }
+        impl<'ast> visit::Visit<'ast> for JB {
+            fn visit_expr_break(&mut self, _: &'ast ExprBreak) { self.brk = true; }
+            fn visit_expr_return(&mut self, _: &'ast ExprReturn) { self.ret = true; }
+            fn visit_expr_closure(&mut self, _: &'ast ExprClosure) {}
+            fn visit_expr_loop(&mut self, _: &'ast ExprLoop) { self.ret = true; }
+            fn visit_expr_while(&mut self, _: &'ast ExprWhile) { self.ret = true; }
+            fn visit_expr_for_loop(&mut self, _: &'ast ExprForLoop) { self.ret = true; }
+        }
+        let mut jb = JB { brk: false, ret: false };
+        visit::Visit::visit_block(&mut jb, &f.body);
+        let with_break = jb.brk && !jb.ret;
         let mut j = J(false);
         visit::Visit::visit_block(&mut j, &f.body);
-        if j.0 {
+        if j.0 && !with_break {
             return Err(format!("`for` over `{}` with break/continue/return in its body is unsupported", tok(&*f.expr)));
         }
         let mut vars = vec![];
@@ -1104,12 +1180,12 @@ impl<'a> Tr<'a> {
         self.rebind_from(&vars, &st, &mut body);
         self.bind_pat(&f.pat, &it, &mut body)?;
         let tuple = self.tuple_of(&vars);
-        self.folds.borrow_mut().push(vars.clone());
-        let body_code = self.stmts(&f.body.stmts, &|_| Ok(tuple.clone()));
+        self.folds.borrow_mut().push((vars.clone(), with_break));
+        let body_code = self.stmts(&f.body.stmts, &|_| Ok(if with_break { format!("(Sum.inl {})", tuple) } else { tuple.clone() }));
         self.folds.borrow_mut().pop();
         body.push_str(&body_code?);
         let mut out = String::new();
-        let folded = format!("(foldlT {} {} (fun {} {} =>\n{}))", iter, tuple, st, it, body);
+        let folded = format!("({} {} {} (fun {} {} =>\n{}))", if with_break { "foldlBrk" } else { "foldlT" }, iter, tuple, st, it, body);
         let upd = format!("upd_{}", n);
         writeln!(out, "let {} := {}", upd, folded).unwrap();
         self.rebind_from(&vars, &upd, &mut out);
@@ -1456,7 +1532,20 @@ fn main() {
             cfg.take_stmts = t.get("take_stmts").and_then(|x| x.as_u64()).map(|x| x as usize);
             cfg.tail = get_str(t, "tail");
             cfg.self_fields = t.get("self_fields").and_then(|x| x.as_array()).map(|a| a.iter().filter_map(|x| x.as_str().map(|s| s.to_string())).collect()).unwrap_or_default();
-            cfg.loop_fuel = t.get("loop_fuel").and_then(|x| x.as_u64()).unwrap_or(100000);
+            cfg.loop_fuel = match t.get("loop_fuel") {
+                Some(Value::String(e)) => e.clone(),
+                Some(v) => v.as_u64().unwrap_or(100000).to_string(),
+                None => "100000".to_string(),
+            };
+            cfg.stmt_methods = get_map(t, "stmt_methods").into_iter().collect();
+            MUTATORS.with(|mu| {
+                let mut mu = mu.borrow_mut();
+                mu.clear();
+                mu.insert("retain".to_string(), 0);
+                for (name, t) in &cfg.stmt_methods {
+                    mu.insert(name.clone(), stmt_template(t).0);
+                }
+            });
             if let Some(Value::Object(m)) = t.get("int_consts") {
                 for (a, b) in m {
                     if let Some(v) = b.as_i64() {
